@@ -76,12 +76,29 @@ def generate(prop, rng, index, tier):
         (fz if p["fuzzy"] else nf).append(p["name"])
     config = "netcdf" if index % 6 == 5 else "csv"
     if config == "netcdf":
+        for p in producers:
+            if not p["fuzzy"] and p["dtype"] == "f8" and rng.random() < 0.4:
+                # a plain layer whose values are fuzzy-like, some of them inside the reader's 1 % tolerance band
+                p["values"] = [rng.choice([-1.0125, -1.0, -0.5, 0.0, 0.75, 1.0, 1.0125, 1.02]) for _ in p["values"]]
+                p["fuzzy_like"] = True
         for p in producers:                     # one grid shape for the template
             if p["shape"] != list(shape):
                 p["shape"] = list(shape)
                 p["values"] = p["values"][:ncell]
                 p["mask"] = p["mask"][:ncell]
     consumers = []
+    like = [p["name"] for p in producers if p.get("fuzzy_like")]
+    if config == "netcdf" and like and rng.random() < 0.6:
+        # the fuzzy-like layer goes through a file: written, read back as fuzzy data, and used alone by an n-ary operator
+        src = rng.choice(like)
+        consumers.append({"name": "k0", "cmd": "EEMSWrite", "args": {
+            "OutFileName": "out0.nc", "OutFieldNames": [src], "DimensionFileName": "template.nc", "DimensionFieldName": "elev"}})
+        consumers.append({"name": "k1", "cmd": "EEMSRead", "args": {"InFileName": "out0.nc", "InFieldName": src, "DataType": "Fuzzy"}})
+        env["k1"] = env[src]
+        fz.append("k1")
+        consumers.append({"name": "k2", "cmd": rng.choice(["FuzzyOr", "FuzzyAnd"]), "args": {"InFieldNames": ["k1"]}})
+        env["k2"] = env[src]
+        fz.append("k2")
     n = rng.randint(5, 14 if tier == "quick" else 40)
     attempts = 0
     while len(consumers) < n and attempts < 300:
@@ -106,7 +123,12 @@ def generate(prop, rng, index, tier):
                 args["MissingValue"] = rng.choice([0, 1, -1, 0.5])
             consumers.append({"name": name, "cmd": "EEMSRead", "args": args})
             env[name] = env[producers[0]["name"]]
-            (fz if args.get("DataType") == "Fuzzy" and False else nf).append(name)
+            src = next((p for p in producers if p["name"] == args["InFieldName"]), None)
+            if args.get("DataType") == "Fuzzy" and src is not None and (src["fuzzy"] or src.get("fuzzy_like")) \
+                    and "MissingValue" not in args:
+                fz.append(name)        # a layer read as fuzzy data is fuzzy data for the commands that use it
+            else:
+                nf.append(name)
             continue
         if cmd == "EEMSWrite" or (config == "netcdf" and rng.random() < 0.25):
             pool = nf + fz
